@@ -501,6 +501,9 @@ def N_attr_size(kinds, sizes, length):
         got = True
     except VerifyException:
         got = False
+    except Exception as e:  # noqa: BLE001  (verification must accept or raise VerifyException, nothing else)
+        return {"definition kinds": kinds, "operandSegmentSizes": sizes, "operands": length, "verify raised": f"{type(e).__name__}: {str(e)[:100]}",
+                "sizes describe a legal split": exp}
     if got != exp:
         return {"definition kinds": kinds, "operandSegmentSizes": sizes, "operands": length, "verify accepted": got,
                 "sizes describe a legal split": exp}
@@ -508,7 +511,10 @@ def N_attr_size(kinds, sizes, length):
     if got:
         off = 0
         for j, (k, s) in enumerate(zip(kinds, sizes)):
-            seg = getattr(op, f"o{j}")
+            try:
+                seg = getattr(op, f"o{j}")
+            except Exception as e:  # noqa: BLE001  (an accessor of a VERIFIED op must not raise)
+                return {"definition kinds": kinds, "operandSegmentSizes": sizes, "accessor": f"o{j}", "raised": f"{type(e).__name__}: {str(e)[:100]}"}
             exp_seg = tuple(op.operands[off:off + s])
             if k == SINGLE:
                 ok = seg is exp_seg[0]
